@@ -38,18 +38,37 @@ func module() pipe.Tree {
 		"a/zz_generated.old1.go": "package a\n\nvar StaleOne = 1\n",
 		"a/zz_generated.old2.go": "package a\n\nvar StaleTwo = 1\n",
 		"a/zz_generated.old3.go": "package a\n\nvar StaleThree = 1\n",
-		"b/b.go":                 "// +gengo:deepcopy\n// +gengo:runtimedoc\npackage b\n\nimport \"" + modPath + "/c\"\n\n// B doc\ntype B struct {\n\t// C doc\n\tC c.C\n\tN Named\n}\n\ntype Named map[string]string\n\ntype B2 int\n",
-		"c/c.go":                 "// +gengo:deepcopy\npackage c\n\n// C doc\ntype C struct{ V []int }\n\ntype C2 string\n",
+		// previous outputs of generator "g" (which will signal ErrIgnore: kept) and "gx" (which renders nothing: removed)
+		"a/zz_generated.g.go":  "package a\n\nvar PreviousG = 1\n",
+		"a/zz_generated.gx.go": "package a\n\nvar PreviousGX = 1\n",
+		"b/b.go":               "// +gengo:deepcopy\n// +gengo:runtimedoc\npackage b\n\nimport \"" + modPath + "/c\"\n\n// B doc\ntype B struct {\n\t// C doc\n\tC c.C\n\tN Named\n}\n\ntype Named map[string]string\n\ntype B2 int\n",
+		"c/c.go":               "// +gengo:deepcopy\npackage c\n\n// C doc\ntype C struct{ V []int }\n\ntype C2 string\n",
 	}
 }
 
 var clashing = []string{"x.io/a/util", "x.io/b/util", "y.io/util", "fmt", "foo/fmt", "k8s.io/api/core/v1", "k8s.io/apis/core/v1", "x/v2"}
 
+// genOrder: 0 = scripted generators as listed, 1 = reversed (the generator SET is the same)
+var genOrder int
+
 func spec(dir string, entry []string, all bool) pipe.Spec {
+	sp := specInOrder(dir, entry, all)
+	if genOrder == 1 {
+		for i, j := 0, len(sp.Gens)-1; i < j; i, j = i+1, j-1 {
+			sp.Gens[i], sp.Gens[j] = sp.Gens[j], sp.Gens[i]
+		}
+	}
+	return sp
+}
+
+func specInOrder(dir string, entry []string, all bool) pipe.Spec {
 	return pipe.Spec{
 		Dir: dir, Entrypoints: entry, All: all,
-		Globals: map[string][]string{"gengo:g1": {"true"}, "gengo:vm": {"true"}, "gengo:defaulter": {"true"}},
+		Globals: map[string][]string{"gengo:g1": {"true"}, "gengo:vm": {"true"}, "gengo:defaulter": {"true"}, "gengo:g": {"true"}, "gengo:gx": {"true"}},
 		Gens: []pipe.GenScript{
+			// "g" signals ErrIgnore for one type and renders nothing; "gx" renders nothing at all
+			{Name: "g", ByType: map[string]pipe.Action{modPath + "/a.T": {Ret: "ignore"}}},
+			{Name: "gx"},
 			{Name: "g1", Stateful: true, Default: pipe.Action{Render: "var V_$T_$G = 1\n", Imports: clashing, Defers: []pipe.Action{{Render: "var D_$T_$G = 1\n"}}},
 				// package c refers only to the SECOND member of each clashing pair: alone it gets the plain names
 				ByType: map[string]pipe.Action{
@@ -64,12 +83,13 @@ func spec(dir string, entry []string, all bool) pipe.Spec {
 }
 
 type Case struct {
-	Entry  []string       `json:"entrypoints"`
-	All    bool           `json:"all"`
-	Def    int            `json:"seam_default_policy"`
-	Policy map[string]int `json:"seam_policy_vector,omitempty"`
-	Runs   int            `json:"consecutive_runs,omitempty"`
-	Child  bool           `json:"fresh_process_per_run,omitempty"`
+	Entry    []string       `json:"entrypoints"`
+	All      bool           `json:"all"`
+	Def      int            `json:"seam_default_policy"`
+	Policy   map[string]int `json:"seam_policy_vector,omitempty"`
+	Runs     int            `json:"consecutive_runs,omitempty"`
+	Child    bool           `json:"fresh_process_per_run,omitempty"`
+	GenOrder int            `json:"scripted_generators_listed_in_reverse,omitempty"`
 	// history variant: the first run fails with a generator error at this type
 	FailFirstRunAt string `json:"first_run_fails_at_type,omitempty"`
 }
@@ -98,6 +118,8 @@ func runOnce(c *core.Ctx, cs Case) (*result, bool) {
 	}
 	seamctl.Set(cs.Def, cs.Policy)
 	defer seamctl.Set(0, nil)
+	genOrder = cs.GenOrder
+	defer func() { genOrder = 0 }()
 	var o pipe.Outcome
 	if cs.Child {
 		// a fresh process (default map order): the references are computed this way, so that every
@@ -118,7 +140,40 @@ func runOnce(c *core.Ctx, cs Case) (*result, bool) {
 	}
 	t, _ := pipe.ReadTree(dir)
 	// gengo.sum contents do not depend on the scratch directory name (hashes are over relative names)
-	return &result{files: outputs(t), calls: strings.Join(o.Calls("type"), "\n") + "\n--\n" + strings.Join(o.Calls("alias"), "\n") + "\n--\n" + strings.Join(o.Calls("defer"), "\n")}, true
+	return &result{files: outputs(t), calls: canonCalls(o, "type") + "\n--\n" + canonCalls(o, "alias") + "\n--\n" + canonCalls(o, "defer")}, true
+}
+
+// canonCalls: the callbacks of one kind, packages in the order they were processed, inside a package grouped
+// by generator NAME (so that listing the same generators in another order gives the same text), inside a
+// generator in the order they happened.
+func canonCalls(o pipe.Outcome, kind string) string {
+	pkgIdx := map[string]int{}
+	type ev struct {
+		pkg int
+		gen string
+		s   string
+	}
+	var evs []ev
+	for _, e := range o.Log {
+		if e.Kind != kind {
+			continue
+		}
+		if _, ok := pkgIdx[e.Pkg]; !ok {
+			pkgIdx[e.Pkg] = len(pkgIdx)
+		}
+		evs = append(evs, ev{pkgIdx[e.Pkg], e.Gen, e.Gen + ":" + e.Pkg + "." + e.Type})
+	}
+	sort.SliceStable(evs, func(i, j int) bool {
+		if evs[i].pkg != evs[j].pkg {
+			return evs[i].pkg < evs[j].pkg
+		}
+		return evs[i].gen < evs[j].gen
+	})
+	var out []string
+	for _, e := range evs {
+		out = append(out, e.s)
+	}
+	return strings.Join(out, "\n")
 }
 
 func diffFiles(a, b map[string]string) string {
@@ -271,7 +326,17 @@ func checkAfterFailure(c *core.Ctx, failAt string) {
 		}
 		if fail {
 			sp := spec(dir, entry, true)
-			sp.Gens[0].ByType = map[string]pipe.Action{failAt: {Ret: "error"}}
+			for gi := range sp.Gens {
+				if sp.Gens[gi].Name == "g1" {
+					bt := map[string]pipe.Action{failAt: {Ret: "error"}}
+					for k, v := range sp.Gens[gi].ByType {
+						if k != failAt {
+							bt[k] = v
+						}
+					}
+					sp.Gens[gi].ByType = bt
+				}
+			}
 			o := pipe.Exec(sp)
 			c.Trans(1)
 			if o.Err == "" || o.LoadErr != "" || o.Panic != "" {
@@ -313,6 +378,14 @@ func run(c *core.Ctx) {
 	c.Bound("max_deviating_sites", maxDev)
 	c.Bound("policies", []string{"ascending", "descending", "rotate-left", "rotate-right"})
 	entryAll := []string{"./a", "./b", "./c"}
+	// (i') the same generator SET listed in the reverse order (GetRegisteredGenerators hands them out in map order)
+	for _, all := range []bool{false, true} {
+		for _, d := range []int{0, 1} {
+			if (d == 0 || seamctl.Available()) && c.Next() {
+				checkAgainst(c, Case{Entry: entryAll, All: all, Def: d, GenOrder: 1}, fmt.Sprint("abc", all), entryAll)
+			}
+		}
+	}
 	// (i) seam policy vectors
 	if seamctl.Available() {
 		for d := 1; d < seamctl.NPolicies; d++ {
@@ -453,7 +526,7 @@ func replay(c *core.Ctx, raw json.RawMessage) {
 func init() {
 	core.Register(&core.Prop{
 		ID: "C04", Level: "model_checking", Run: run, Replay: replay,
-		Rule: "one order-sensitive module (package-level T + type parameter T + function-local T, 15 documented types, a type switched off that keeps a sub-option, aliases, 3 packages importing each other, 3 stale outputs, 8 imports with clashing last segments) with 6 generators (stateful scripted with Defer, second scripted, map-literal/multi-argument template generator, runtimedoc, deepcopy, defaulter). (i) every map-iteration policy vector over all range-over-map sites of the library with <=2 (thorough <=3) deviating sites x 3 non-default policies, plus each policy applied globally; (ii) every entrypoint sequence of length <=3 over 5 spellings (relative dirs, an import path, the module-root package '.', duplicates) x All on/off, compared inside its group of equal package sets; (iii) 3 consecutive runs in-process (each global policy) and with a fresh process per run, and 3-run histories under 4 entrypoint orders (root package first / last / in the middle / by import path) whose outputs incl. gengo.sum are compared after every run; histories that start with a run failing in one of 5 places followed by 3 clean runs vs 3 clean runs alone. Oracle: all generated files and gengo.sum byte-identical to the reference execution (which runs in a fresh process), identical callback sequence, later runs change no generated file. Every execution is non-trivial; states = distinct (group, policy) classes",
+		Rule: "one order-sensitive module (package-level T + type parameter T + function-local T, 15 documented types, a type switched off that keeps a sub-option, aliases, 3 packages importing each other, 3 stale outputs, 8 imports with clashing last segments) with 8 generators (stateful scripted with Defer, second scripted, one that signals ErrIgnore and one that renders nothing - both with previous outputs -, map-literal/multi-argument template generator, runtimedoc, deepcopy, defaulter), also listed in the reverse order. (i) every map-iteration policy vector over all range-over-map sites of the library with <=2 (thorough <=3) deviating sites x 3 non-default policies, plus each policy applied globally; (ii) every entrypoint sequence of length <=3 over 5 spellings (relative dirs, an import path, the module-root package '.', duplicates) x All on/off, compared inside its group of equal package sets; (iii) 3 consecutive runs in-process (each global policy) and with a fresh process per run, and 3-run histories under 4 entrypoint orders (root package first / last / in the middle / by import path) whose outputs incl. gengo.sum are compared after every run; histories that start with a run failing in one of 5 places followed by 3 clean runs vs 3 clean runs alone. Oracle: all generated files and gengo.sum byte-identical to the reference execution (which runs in a fresh process), identical callback sequence, later runs change no generated file. Every execution is non-trivial; states = distinct (group, policy) classes",
 		Assumptions: []string{
 			"map orders are bounded to ascending/descending/rotations per site with a bounded number of deviating sites, not all n! orders",
 			"sync.Map.Range in pkgExecute (order in which finished files are written) is not owned: files are independent of one another",
